@@ -27,7 +27,8 @@ void mark_variable_as_resource_if_needed(Environment *env, const char *var_name,
 
 /* Check resource usage (read/borrow) and update state */
 void check_resource_use(Environment *env, const char *var_name, int line, int column, bool *has_error) {
-    Symbol *sym = env_get_var(env, var_name);
+    /* the symbol in scope here, not a same-named one from a block that has ended */
+    Symbol *sym = env_get_var_visible_at(env, var_name, line, column);
     if (!sym || !sym->is_resource) return;
     
     /* Check if resource was already consumed */
@@ -46,7 +47,7 @@ void check_resource_use(Environment *env, const char *var_name, int line, int co
 
 /* Check resource consumption (ownership transfer) */
 void check_resource_consume(Environment *env, const char *var_name, int line, int column, bool *has_error) {
-    Symbol *sym = env_get_var(env, var_name);
+    Symbol *sym = env_get_var_visible_at(env, var_name, line, column);
     if (!sym || !sym->is_resource) return;
     
     /* Check if resource was already consumed */
